@@ -36,14 +36,7 @@ def main():
             if hasattr(wl, "preload"):
                 wl.preload()
             ctx.paths.start()
-        if replay:
-            ctx.replaying = True
-            with open(replay) as f:
-                rep = json.load(f)
-            for w in rep.get("witnesses", []):
-                wl.replay(ctx, w)
-        else:
-            wl.run(ctx)
+        wl.run(ctx)
         ctx.meta.setdefault("rule", getattr(wl, "RULE", ""))
         ctx.meta.setdefault("assumptions", getattr(wl, "ASSUMPTIONS", []))
         ctx.meta.setdefault("exhaustive_core", getattr(wl, "EXHAUSTIVE_CORE", None))
